@@ -122,9 +122,11 @@ Step(rec) ==
     [] rec.act = "MutateCopy" ->
          /\ Clause("isolated_copy", SameAll(cur, rec.post))
          /\ Clause("published_unchanged", rec.published_same)
+         /\ Clause("lookups_agree", rec.post.agree)
          /\ hi' = HiOf(hi, rec.post) /\ UNCHANGED <<open, txpre, ops>>
     [] OTHER ->   \* an API call inside the open transaction
          /\ Clause("isolated_in_tx", SameAll(cur, rec.post))
+         /\ Clause("lookups_agree", rec.post.agree)      \* also while a transaction is open
          /\ ops' = IF rec.res = "ok" THEN Append(ops, rec) ELSE ops
          /\ hi' = HiOf(hi, rec.post) /\ UNCHANGED <<open, txpre>>
 
